@@ -1,6 +1,8 @@
 package ast
 
 import (
+	"bytes"
+	"encoding/json"
 	"fmt"
 	"regexp"
 	"time"
@@ -13,6 +15,19 @@ const NodeTypeOf = "typeOf"
 
 // JSONNode is the intermediate type between Node and JSON serialization
 type JSONNode map[string]interface{}
+
+// unmarshalJSONNode decodes the JSON object of a node.
+// Numbers are kept as json.Number: decoding them into float64, as json.Unmarshal does
+// for interface{} values, silently changes integer literals above 2^53.
+func unmarshalJSONNode(data []byte) (JSONNode, error) {
+	dec := json.NewDecoder(bytes.NewReader(data))
+	dec.UseNumber()
+	var props JSONNode
+	if err := dec.Decode(&props); err != nil {
+		return nil, err
+	}
+	return props, nil
+}
 
 // Type adds the Node type information
 func (j JSONNode) Type(typ string) JSONNode {
@@ -103,6 +118,14 @@ func (j JSONNode) Int64(field string) (int64, error) {
 		return 0, err
 	}
 
+	if jn, ok := n.(json.Number); ok {
+		i, err := jn.Int64()
+		if err != nil {
+			return 0, fmt.Errorf("field %s is not an integer value: %v", field, err)
+		}
+		return i, nil
+	}
+
 	num, ok := n.(int64)
 	if !ok {
 		flt, ok := n.(float64)
@@ -119,6 +142,14 @@ func (j JSONNode) Float64(field string) (float64, error) {
 	n, err := j.Field(field)
 	if err != nil {
 		return 0, err
+	}
+
+	if jn, ok := n.(json.Number); ok {
+		f, err := jn.Float64()
+		if err != nil {
+			return 0, fmt.Errorf("field %s is not a floating point value: %v", field, err)
+		}
+		return f, nil
 	}
 
 	num, ok := n.(float64)
